@@ -6,7 +6,7 @@ VERIF = os.path.dirname(os.path.dirname(os.path.abspath(__file__)))
 BUILTIN_ASSUMPTIONS = [
     "assumed builtin contract: int(str) accepts ws*[+-]?d+(_d+)*ws* on ASCII input, sign abstraction only (value uninterpreted)",
     "assumed builtin contract: float(str) accept language incl. inf/nan/underscores; float VALUES uninterpreted (machine arithmetic not treated as mathematical)",
-    "assumed builtin contract: re.match/re.search = CPython re._parser translated to RegLan ($ also before final newline, . excludes newline)",
+    "assumed builtin contract: re.match/re.search = CPython re._parser translated to RegLan ($ also before final newline, \\Z end of string only, . excludes newline)",
     "assumed builtin contract: isinstance/getattr resolved on the live classes imported from $VERIF_REPO (closed world, no monkeypatching)",
     "Python int = mathematical integer (exact); bool not modelled as int",
     "termination and recursion depth not proved (partial correctness)",
